@@ -45,6 +45,14 @@ func (v *ReplaceValidator) Validate(p patch.Patch) error {
 		}
 	}
 
+	if err := validateOptionalObjectArray(doc[document.ReplacePublicKeyProperty]); err != nil {
+		return fmt.Errorf("failed to validate public keys for replace document: %s", err.Error())
+	}
+
+	if err := validateOptionalObjectArray(doc[document.ReplaceServiceProperty]); err != nil {
+		return fmt.Errorf("failed to validate services for replace document: %s", err.Error())
+	}
+
 	if err := validatePublicKeys(doc.PublicKeys()); err != nil {
 		return fmt.Errorf("failed to validate public keys for replace document: %s", err.Error())
 	}
